@@ -35,6 +35,15 @@ def gen_tasks(tier, seed):
             tasks.append({**base, "edges": wedges, "kwargs": {"weight_type": "int", "optimization_options": {"use_min_gen_set_lowerbound": True, "optimize_with_greedy": False}}})
             tasks.append({**base, "edges": wedges, "kwargs": {"weight_type": "int", "optimization_options": {"use_min_gen_set_lowerbound": True, "use_min_gen_set_lowerbound_partition_constraints": True}}})
             tasks.append({**base, "edges": wedges, "subgraph_window": 3, "kwargs": {"weight_type": "int", "optimization_options": {"use_subgraph_scanning_lowerbound": True}}})
+            # lower-bound options combined with ignored elements / constraints (the sub-instances must ignore the same elements)
+            if len(es) > 2:
+                e1 = rng.choice(es)
+                for oo in ({"use_subgraph_scanning_lowerbound": True}, {"use_min_gen_set_lowerbound": True}, {"use_subgraph_scanning_lowerbound": True, "optimize_with_greedy": False}):
+                    tasks.append({**base, "edges": wedges, "ignored": [e1], "subgraph_window": rng.choice([2, 3]),
+                                  "kwargs": {"weight_type": "int", "elements_to_ignore": [e1], "optimization_options": oo}})
+                e2 = rng.sample(es, 2)
+                tasks.append({**base, "edges": wedges, "ignored": e2, "subgraph_window": 2,
+                              "kwargs": {"weight_type": "int", "elements_to_ignore": e2, "optimization_options": {"use_subgraph_scanning_lowerbound": True}}})
             # subpath constraints admitting a decomposition: take a sub-path of a route used by the flow
             sps = I.contiguous_subpaths(es, 3)
             sp = rng.choice(sps)
